@@ -10,9 +10,10 @@ pkg=$(grep -m1 '^package ' $M/demo_test.go | awk '{print $2}')
 case "$pkg" in xz|xz_test) sub=. ;; lzma|lzma_test) sub=lzma ;; main) sub=cmd/gxz ;; *) sub=. ;; esac
 cp $M/demo_test.go $D/$sub/zz_demo_test.go
 cd $D
-clean=$(go test -vet=off -count=1 -run 'Demo|C[0-9][0-9]' ./$sub/ 2>&1 | tail -1 | cut -c1-60)
+RF=''; [ -n "${RACE:-}" ] && RF=-race
+clean=$(go test $RF -vet=off -count=1 -run 'Demo|C[0-9][0-9]' ./$sub/ 2>&1 | tail -1 | cut -c1-60)
 if ! git apply $M/patch.diff 2>/dev/null; then echo "$N: PATCH-DOES-NOT-APPLY"; cd /; git -C /repo worktree remove --force $D; exit 1; fi
-mut=$(go test -vet=off -count=1 -run 'Demo|C[0-9][0-9]' ./$sub/ 2>&1 | tail -1 | cut -c1-60)
+mut=$(go test $RF -vet=off -count=1 -run 'Demo|C[0-9][0-9]' ./$sub/ 2>&1 | tail -1 | cut -c1-60)
 rm $D/$sub/zz_demo_test.go
 suite=$(go test -vet=off -count=1 ./... 2>&1 | grep -c -E '^(FAIL|---)')
 echo "$N: pkgdir=$sub clean=[$clean] mutated=[$mut] suite_failures=$suite"
